@@ -56,7 +56,46 @@ def declaresChunked (c : TCase) : Bool :=
 def isChunkedCase (c : TCase) : Bool :=
   (firstNew c).isSome && (declaresChunked c || !(caseHeaders c).any (fun h => h.name == "content-length"))
 
-def oracleC03 (c : TCase) : Verdict :=
+/-- index just after the first CRLF CRLF, if any -/
+def headEndIdx (b : Bytes) : Option Nat :=
+  let rec go (fuel : Nat) (rest : Bytes) (k : Nat) : Option Nat :=
+    match fuel, rest with
+    | 0, _ => none
+    | _, 13 :: 10 :: 13 :: 10 :: _ => some (k + 4)
+    | _, [] => none
+    | f + 1, _ :: r => go f r (k + 1)
+  go (b.length + 1) b 0
+
+/-- The single-call API writes head and body through one method. For the body-writer properties a `Call` case
+    is read as the flow it stands for: the bytes up to the end of the head are set aside, a `cbwrite` becomes
+    the `bwrite` of what it emitted behind the head, `cfinished` the readiness query and `cinto` the advance.
+    (A head logged as a hash cannot be split: such a case asks for the full log.) -/
+def callAsFlow (c : TCase) : TCase × Bool :=
+  if !(c.lines.any (·.kw == "cnew")) then (c, false) else
+  let (ls, _, _, nf) := c.lines.foldl (fun (acc : List TLine × Bytes × Bool × Bool) t =>
+    let (out, head, done, nf) := acc
+    match t.kw, t.res with
+    | "cbwrite", ["bytes", n, o] =>
+      if done then (out ++ [{ t with op := "bwrite" :: t.op.drop 1, st := "sendBody" }], head, done, nf) else
+      (match outBytes? o with
+       | none => (out, head, done, true)
+       | some ob =>
+         let h2 := head ++ ob
+         (match headEndIdx h2 with
+          | none => (out, h2, false, nf)
+          | some e =>
+            let body := h2.drop e
+            (out ++ [{ t with op := "bwrite" :: t.op.drop 1, res := ["bytes", n, toHex body], st := "sendBody" }], h2, true, nf)))
+    | "cbwrite", _ => if done then (out ++ [{ t with op := "bwrite" :: t.op.drop 1, st := "sendBody" }], head, done, nf) else (out, head, done, nf)
+    | "cfinished", _ => if done && t.st == "callBody" then (out ++ [{ t with op := ["canproceed"], st := "sendBody" }], head, done, nf) else (out, head, done, nf)
+    | "cinto", "state" :: _ => (out ++ [{ t with op := ["proceed"], res := ["state", "recvResponse"], st := "recvResponse" }], head, done, nf)
+    | "cinto", _ => (out ++ [{ t with op := ["proceed"], res := ["none"], st := "sendBody" }], head, done, nf)
+    | _, _ => (out ++ [t], head, done, nf)) ([], [], false, false)
+  ({ c with lines := ls }, nf)
+
+def oracleC03 (c0 : TCase) : Verdict :=
+  let (c, nf) := callAsFlow c0
+  if nf then .needFull else
   if !isChunkedCase c then .ok else
   let st := c.lines.foldl (fun (s : C03St) t =>
     if s.fail.isSome || s.needFull then s else
@@ -274,7 +313,9 @@ structure C19St where
   left : Option Nat := none
   fail : Option String := none
 
-def oracleC19 (c : TCase) : Verdict :=
+def oracleC19 (c0 : TCase) : Verdict :=
+  let (c, nf) := callAsFlow c0
+  if nf then .needFull else
   let sizedN := contentLengthOf c
   let st := c.lines.foldl (fun (s : C19St) t =>
     if s.fail.isSome then s else
